@@ -11,6 +11,7 @@ pub mod c09;
 pub mod c10;
 pub mod c11;
 pub mod c13;
+pub mod c14;
 pub mod c15;
 pub mod c16;
 pub mod c17;
@@ -20,6 +21,7 @@ pub mod apply;
 pub mod ddl;
 pub mod fixture;
 pub mod gen;
+pub mod refddl;
 pub mod refsql;
 pub mod render;
 pub mod spec;
@@ -43,6 +45,7 @@ pub fn lookup(prop: &str) -> Option<CheckFn> {
         "C10" => Some(c10::check),
         "C11" => Some(c11::check),
         "C13" => Some(c13::check),
+        "C14" => Some(c14::check),
         "C15" => Some(c15::check),
         "C16" => Some(c16::check),
         "C17" => Some(c17::check),
